@@ -610,7 +610,6 @@ func c09FirstWrite(fn *ssa.Function) string {
 }
 
 
-var c09Mutants = []Mutant{}
 
 // =====================================================================
 // R2: resolver.Memory keeps tags (digest -> refs) the inverse of index
